@@ -695,8 +695,11 @@ class SimKernel:
         elif kind == "net_add":
             row = self.net.get(ev["name"])
             if row is not None:
+                mod = ev.get("mod")
                 for i, n in enumerate(ev["inc"]):
                     row[i] += n
+                    if mod:
+                        row[i] %= mod      # a 32-bit kernel counter wraps
                 self.net_hist.append({n: list(r) for n, r in self.net.items()})
             self.bump()
         elif kind == "net_set":
@@ -1227,7 +1230,8 @@ class SimKernel:
             elif f.path in ("/proc/net/dev", "/proc/diskstats"):
                 c = self.ctxs[self.cur_thread]
                 self.tabreads.append((c.thread, c.op, f.path, self.version,
-                                      self.nacc))
+                                      self.nacc, {n: list(r) for n, r in
+                                                  self.net.items()}))
             data = self.system_file(f.path)
             if data is None:
                 raise self._err(errno.ENOENT, f.path)
